@@ -8,6 +8,7 @@ CONSTANTS
   MutClosingFirst = FALSE
   MutSharedCtx = TRUE
   MutEarlyReturn = FALSE
-INVARIANTS TypeOK NoAddDuringWait ClosingAfterInner DropJustified InOrderOnce NothingLostSilently OutClosedAfterIn CloseComplete
+  MutCheckThenClose = FALSE
+INVARIANTS TypeOK NoDoubleSignal NoAddDuringWait ClosingAfterInner DropJustified InOrderOnce NothingLostSilently OutClosedAfterIn CloseComplete
 PROPERTIES CloseReturns CancelCloses
 CHECK_DEADLOCK FALSE
